@@ -468,6 +468,7 @@ int main(int argc, char** argv) {
         if (mode == "replay") return vfx::replay(replay_path, o);
         if (mode == "serve") return vfx::serve(o);
         if (mode == "servecopy") return vfx::servecopy(o);
+        if (mode == "caps") { zoo::RootT* r = new zoo::RootT(); zoo::vf_prepare(*r); r->start(); (void)vfx::canon_state(*r); std::cout << "missing: " << vf::caps_missing() << "\n"; return 0; }
         if (mode == "info") { std::cout << zoo::vf_machine_name << " cfg=" << VF_CFG << " events=" << zoo::vf_nevents << " menu=" << zoo::vf_nmenu << "\n"; return 0; }
     } catch (vf::Nondeterminism& n) {
         std::cerr << "NONDETERMINISM " << n.what << "\n";
